@@ -21,11 +21,13 @@ def rows(sel):
     return out
 w4 = rows(lambda s: s.endswith(("-m5", "-m6")) or s == "C02-m4")
 w5 = rows(lambda s: s.endswith(("-m7", "-m8")))
-w6 = rows(lambda s: s.endswith(("-m9", "-m10")))
-w7 = rows(lambda s: s.endswith(("-m11", "-m12")))
+W8 = {"C11-m9", "C11-m10", "C20-m9", "C20-m10", "C16-m11", "C16-m12"}
+w6 = rows(lambda s: s.endswith(("-m9", "-m10")) and s not in W8)
+w7 = rows(lambda s: s.endswith(("-m11", "-m12")) and s not in W8)
+w8 = rows(lambda s: s in W8)
 def count(rs):
     return sum("| as built" in r for r in rs), len(rs)
-a4, n4 = count(w4); a5, n5 = count(w5); a6, n6 = count(w6); a7, n7 = count(w7)
+a4, n4 = count(w4); a5, n5 = count(w5); a6, n6 = count(w6); a7, n7 = count(w7); a8, n8 = count(w8)
 nd = [s for s, m in metas.items() if "check" in m and not m.get("detected")]
 block = f"""<!-- seeded-tables-begin -->
 **Wave 4** ({n4} changes incl. the recreated C02-m4, two per claimed property, numbered m5/m6). "as built" = the checks as
@@ -62,7 +64,15 @@ summaries of the earlier changes to that property, nothing from /verif):
 |--------|---------------------------|--------|---------------------------|
 """ + "\n".join(w7) + f"""
 
-{a7} of {n7} as built, {n7 - a7} after the listed additions. Not detected by the committed checks: {nd or 'none'}.
+{a7} of {n7} as built, {n7 - a7} after the listed additions.
+
+**Wave 8** ({n8} changes for C11, C16, C20, same briefing as wave 7):
+
+| change | what it needs to manifest | caught | first violated obligation |
+|--------|---------------------------|--------|---------------------------|
+""" + "\n".join(w8) + f"""
+
+{a8} of {n8} as built, {n8 - a8} after the listed additions. Not detected by the committed checks: {nd or 'none'}.
 <!-- seeded-tables-end -->"""
 p = os.path.join(ROOT, "DESIGN.md")
 s = open(p).read()
